@@ -1,6 +1,7 @@
 //! Group drivers (part 2): `fen` and `parse`.
 
 use crate::gen::*;
+use crate::groups::with_raw;
 use crate::obs::*;
 use crate::obs2::*;
 use crate::strings::*;
@@ -23,11 +24,12 @@ fn len_bucket(n: usize) -> String {
 /// Emits a parse op, counting string length (in chars) and outcome class per op and source.
 fn emit_parse(out: &mut Out, op: &str, source: &str, text: &str, f: fn(&str) -> (String, &'static str)) {
     let (o, class) = f(text);
-    out.stats.inc(&format!("parse_{op}.class_{class}"));
-    out.stats.inc(&format!("parse_{op}.source_{source}"));
-    out.stats.inc(&format!("parse_{op}.len_{}", len_bucket(text.chars().count())));
+    let key = op.replace('.', "_");
+    out.stats.inc(&format!("parse_{key}.class_{class}"));
+    out.stats.inc(&format!("parse_{key}.source_{source}.{class}"));
+    out.stats.inc(&format!("parse_{key}.len_{}", len_bucket(text.chars().count())));
     if !text.is_ascii() {
-        out.stats.inc(&format!("parse_{op}.non_ascii"));
+        out.stats.inc(&format!("parse_{key}.non_ascii"));
     }
     out.emit(&format!("{op} {}", hex(text)), &o);
 }
@@ -130,7 +132,7 @@ pub fn fen(tier: usize, seed: u64, out: &mut Out) {
             t = mutate(&t, &FEN_POOL, false, &mut rng).1;
         }
         out.stats.inc(&format!("fen.mutation_{kind}"));
-        emit_pfen(out, "mutation", &t.replace('\n', " "));
+        emit_pfen(out, "mutation", &t);
     }
     // multi-byte splices
     for i in 0..FEN_SPLICES[tier] {
@@ -161,7 +163,7 @@ fn random_pgn_exports(n: usize, rng: &mut Rng, out: &mut Out) -> Vec<String> {
                 }
                 let pos = g.get_position();
                 let legal = pos.get_legal_moves();
-                match choose_weighted(&pos, &legal, rng) {
+                match choose_weighted_bias(&pos, &legal, rng, true) {
                     Some((m, _)) => {
                         if g.make_move(&Action::MakeMove(m)).is_err() {
                             break;
